@@ -219,6 +219,10 @@ pub struct SeqCase {
     /// 2 = segment 0 with position == index where possible
     pub policy: u8,
     pub inline_some: bool,
+    /// messages (by index) that are sent a first time with their last byte missing: the header is complete and conforming,
+    /// the term behind it is not; the sender does not know and goes on referring to the entries it has just announced
+    #[serde(default)]
+    pub cut_first: Vec<u8>,
 }
 
 fn atom_hash(a: &str) -> u16 {
@@ -238,28 +242,50 @@ pub fn seq_oracle(case: &SeqCase) -> Verdict {
     let mut overwrote = 0usize;
     let mut pos_ne_slot = 0usize;
     let mut segs = std::collections::BTreeSet::new();
+    let mut bad_frames = 0usize;
     for (mi, (cv, pv)) in case.msgs.iter().enumerate() {
         let policy = case.policy;
         let slots = &case.slots;
         let inline_some = case.inline_some;
-        let mut k = 0u16;
-        let mut slot_of = |a: &str| -> Option<u16> {
-            let r = slots.get(si).copied().unwrap_or(0);
-            si += 1;
-            if inline_some && r % 7 == 0 {
-                return None;
-            }
-            Some(match policy {
-                0 => atom_hash(a),
-                1 => (atom_hash(a) % 3) * 256 + (r % 4),
-                2 => {
-                    let s = k;
-                    k += 1;
-                    s
+        // slot choices of one transmission, starting at choice index `from`
+        let choose = |from: usize| {
+            let mut at = from;
+            let mut k = 0u16;
+            move |a: &str| -> Option<u16> {
+                let r = slots.get(at).copied().unwrap_or(0);
+                at += 1;
+                if inline_some && r % 7 == 0 {
+                    return None;
                 }
-                _ => r % 2048,
-            })
+                Some(match policy {
+                    0 => atom_hash(a),
+                    1 => (atom_hash(a) % 3) * 256 + (r % 4),
+                    2 => {
+                        let s = k;
+                        k += 1;
+                        s
+                    }
+                    _ => r % 2048,
+                })
+            }
         };
+        if case.cut_first.iter().any(|k| *k as usize == mi) {
+            // the same message, with the same slot choices, once without its last byte
+            let (full, _) = sender_encode(cv, pv.as_ref(), &mut sc, &mut choose(si), &mut Canonical);
+            let cut = &full[..full.len() - 1];
+            let _ = read_dist_message(cut, &mut shadow);
+            if let Ok((c2, _)) = erltf::decode_with_atom_cache(cut, &mut cache) {
+                vfail!("truncated-message-accepted", "message {mi} without its last byte decoded as {}", denote(&c2).render());
+            }
+            bad_frames += 1;
+        }
+        let mut atoms_in_msg = vec![];
+        atoms_of(cv, &mut atoms_in_msg);
+        if let Some(p) = pv {
+            atoms_of(p, &mut atoms_in_msg);
+        }
+        let mut slot_of = choose(si);
+        si += atoms_in_msg.len().min(255);
         let before = sc.clone();
         let (bytes, refs) = sender_encode(cv, pv.as_ref(), &mut sc, &mut slot_of, &mut Canonical);
         for (i, r) in refs.iter().enumerate() {
@@ -321,7 +347,8 @@ pub fn seq_oracle(case: &SeqCase) -> Verdict {
             .class_if(overwrote > 0, "slot-overwritten")
             .class_if(pos_ne_slot > 0, "position!=slot")
             .class_if(segs.len() > 1, "several-segments")
-            .class_if(segs.iter().any(|s| *s == 7), "segment-7"),
+            .class_if(segs.iter().any(|s| *s == 7), "segment-7")
+            .class_if(bad_frames > 0, "undecodable-term-behind-a-conforming-header"),
     )
 }
 
@@ -377,8 +404,8 @@ pub fn seq_strategy() -> impl Strategy<Value = SeqCase> {
     ];
     let term = prop::collection::vec(leaf, 1..6).prop_map(Value::Tuple);
     let msg = (term.clone(), prop::option::weighted(0.6, term));
-    (prop::collection::vec(msg, 2..20), prop::collection::vec(any::<u16>(), 0..160), 0u8..4, any::<bool>())
-        .prop_map(|(msgs, slots, policy, inline_some)| SeqCase { msgs, slots, policy, inline_some })
+    (prop::collection::vec(msg, 2..20), prop::collection::vec(any::<u16>(), 0..160), 0u8..4, any::<bool>(), prop_oneof![2 => Just(vec![]), 1 => prop::collection::vec(0u8..20, 1..4)])
+        .prop_map(|(msgs, slots, policy, inline_some, cut_first)| SeqCase { msgs, slots, policy, inline_some, cut_first })
 }
 
 pub fn run(run: &mut Run) {
